@@ -1,9 +1,17 @@
 #!/bin/bash
-# test a batch of stored seeded changes inside a `vp run --with-repo` snapshot:
-#   vp run --with-repo -- ./harness/seedbatch.sh C01 C02 ...
+# test stored seeded changes inside a `vp run --with-repo` snapshot:
+#   vp run --with-repo -- ./harness/seedbatch.sh C01 C02 ...            (every change of those properties)
+#   vp run --with-repo -- ./harness/seedbatch.sh -f seeded/batch.txt    (one `seedtool.py test` argument list per line)
 cd "$(dirname "$0")/.."; mkdir -p out
 if [ -n "$VP_RUN_REPO" ]; then export DARR_REPO=$VP_RUN_REPO; fi
 ./check --setup > out/setup.log 2>&1 || { echo "setup failed"; tail -20 out/setup.log; }
-for c in "$@"; do
-  python3 harness/seedtool.py test $c 2>&1 | grep -v WARN | grep "DETECTED\|missed\|error"
-done
+if [ "$1" = "-f" ]; then
+  while read -r line; do
+    [ -z "$line" ] && continue
+    python3 harness/seedtool.py test $line 2>&1 | grep -v WARN | grep "DETECTED\|missed\|error"
+  done < "$2"
+else
+  for c in "$@"; do
+    python3 harness/seedtool.py test $c 2>&1 | grep -v WARN | grep "DETECTED\|missed\|error"
+  done
+fi
